@@ -11,18 +11,20 @@ def queries(tier):
     qs = []
     cells = []
     if tier == 'quick':
-        cells = [(2, 0, 0, 1, 3), (2, 2, 0, 1, 4), (2, 3, 0, 1, 4), (2, 2, 1, 2, 3), (2, 2, 1, 1, 3), (3, 2, 0, 1, 3)]
+        cells = [(2, 0, 0, 1, 3), (2, 2, 0, 1, 4), (2, 3, 0, 1, 4), (2, 2, 1, 2, 4), (2, 2, 1, 1, 4), (2, 4, 1, 2, 4), (3, 2, 0, 1, 3), (3, 3, 0, 1, 3)]
     else:
         for T in (2, 3):
             for R in range(0, 5):
-                cells.append((T, R, 0, 1, 4 if T == 2 else 3))
-                cells.append((T, R, 1, 1, 4 if T == 2 else 3))
+                K = (5 if R <= 3 else 4) if T == 2 else (4 if R <= 2 else 3)
+                cells.append((T, R, 0, 1, K))
+                cells.append((T, R, 1, 1, K))
                 if R % 2 == 0 and R:
-                    cells.append((T, R, 1, 2, 4 if T == 2 else 3))
+                    cells.append((T, R, 1, 2, K))
     for (T, R, B, blk, K) in cells:
         maxops = R + 3 + 2
         qs.append(dict(name='workers_T%d_R%d_%s%d_K%d' % (T, R, 'blk' if B else 'one', blk, K), unit='tools', harness='h_workers.c',
-                       defs={'T': T, 'RANGE': R, 'BLOCKS': B, 'BLK': blk, 'ROUNDS': K, 'MAXOPS': 3 * R + 4}, unwind=3 * R + 6, timeout=900, mem_gb=8,
+                       defs={'T': T, 'RANGE': R, 'BLOCKS': B, 'BLK': blk, 'ROUNDS': K, 'MAXOPS': 3 * R + 4}, unwind=R + 3,
+                       unwindset=','.join('harness.%d:%d' % (i, 3 * R + 6) for i in range(12)), timeout=1800, mem_gb=8,
                        desc='%d workers of %s over %d values, block %d: exactly-once / hit semantics for every schedule with <= %d context switches per thread' % (T, 'parallel_range_blocks' if B else 'parallel_range', R, blk, K - 1),
                        bounds='T=%d range=%d block=%d rounds=%d' % (T, R, blk, K)))
     lc = [(2, 2, 0, 1), (2, 3, 1, 0), (2, 4, 1, 0)] if tier == 'quick' else [(T, R, B, blk) for T in (1, 2, 3) for R in (0, 1, 2, 3, 4) for (B, blk) in ((0, 1), (1, 0))]
